@@ -34,9 +34,12 @@ impl Pick for u32 {
         let pickn = |vals: &[u32]| vals[c % vals.len()];
         match field {
             "function_index" => pickn(&[0, 1, 3]),
-            "table_index" | "table" | "src_table" | "dst_table" => pickn(&[0, 0, 2]),
+            // source and destination differ in two of three choices (a swap must be visible)
+            "src_table" => pickn(&[0, 2, 0]),
+            "table_index" | "table" | "dst_table" => pickn(&[0, 0, 2]),
             "global_index" => pickn(&[0, 1, 2, 3, 4, 5, 6]),
-            "mem" | "src_mem" | "dst_mem" => pickn(&[0, 1, 0]),
+            "src_mem" => pickn(&[0, 0, 1]),
+            "mem" | "dst_mem" => pickn(&[0, 1, 0]),
             "type_index" => pickn(&[0, 1, 2]),
             "local_index" => pickn(&[0, 1, 2, 3, 4, 5, 6]),
             "data_index" => pickn(&[0, 1]),
